@@ -34,6 +34,9 @@ class XFloat:
     def isnan(self):
         return wrap(self.kind == 1)
 
+    def isinf(self):
+        return wrap(z3.Or(self.kind == 2, self.kind == 3))
+
 
 class Cell:
     """a csv cell as read back: empty or the text of a float"""
